@@ -121,6 +121,7 @@ func (ex *Exec) dispatch(fr *Frame, st *State, key string, fn *ssa.Function, fre
 				}
 				o := ex.oblige(st, "assert", nm+"@call", g, pos)
 				o.Props = ca.Clause.Props
+				ex.assume(st, g)
 			}
 		}
 	}
@@ -149,8 +150,42 @@ func (ex *Exec) dispatch(fr *Frame, st *State, key string, fn *ssa.Function, fre
 			res.Clo = vals[0].Clo
 		}
 	default:
-		ex.note("havoc", key)
-		ex.havocAll(st)
+		var ws *wset
+		if fn != nil && len(fn.Blocks) > 0 {
+			ws = ex.eng.writeSet(fn)
+		}
+		if ws != nil && !ws.top {
+			ex.note("summary", key)
+			ex.bumpWM(st)
+			names := sortedKeys(ws.heaps)
+			for _, n := range names {
+				srt, ok := ex.heapSrt[n]
+				if !ok {
+					continue // never read or written by the function under verification
+				}
+				st.heap[n] = Fresh(n, srt)
+				ex.heapFacts(n, st.heap[n], st.wm)
+				if ex.wlog != nil {
+					ex.wlog.logHeap(n, nil)
+				}
+			}
+			st.hv = newHV(false, ws.heaps, st.wm, st.hv)
+			if ex.wlog != nil {
+				if ex.wlog.hvSet == nil {
+					ex.wlog.hvSet = map[string]bool{}
+				}
+				for n := range ws.heaps {
+					ex.wlog.hvSet[n] = true
+				}
+			}
+		} else {
+			if ws != nil {
+				ex.note("havoc", key+" [write-set unknown: "+ws.why+"]")
+			} else {
+				ex.note("havoc", key)
+			}
+			ex.havocAll(st)
+		}
 		ex.havocEscapedLocals(st, args)
 		res = ex.freshResult(st, shortName(key), rt)
 	}
@@ -163,6 +198,7 @@ func (ex *Exec) dispatch(fr *Frame, st *State, key string, fn *ssa.Function, fre
 				g := ex.evalBool(env, ca.Clause)
 				o := ex.oblige(st, "assert", fmt.Sprintf("assert:%s@after", clauseName(ca.Clause, 0)), g, pos)
 				o.Props = ca.Clause.Props
+				ex.assume(st, g)
 			}
 		}
 	}
@@ -263,6 +299,10 @@ func (ex *Exec) havocAll(st *State) {
 		if ex.wlog != nil {
 			ex.wlog.logHeap(n, nil)
 		}
+	}
+	st.hv = newHV(true, nil, st.wm, st.hv)
+	if ex.wlog != nil {
+		ex.wlog.hvAll = true
 	}
 	ex.havocEpoch++
 }
